@@ -61,6 +61,10 @@ func (RawCodec) Name() string { return "verifraw" }
 // Method is the full name of the only registered method.
 const Method = "/verif.Life/Call"
 
+// MethodFill is a second method served by the same handler (for auxiliary RPCs
+// that must not be matched by a per-method service config of Method).
+const MethodFill = "/verif.Life/Fill"
+
 // BidiDesc is the client-side stream descriptor for Method.
 var BidiDesc = &grpc.StreamDesc{StreamName: "Call", ServerStreams: true, ClientStreams: true}
 
@@ -97,6 +101,11 @@ func ServiceDesc(h func(grpc.ServerStream) error) *grpc.ServiceDesc {
 		HandlerType: (*any)(nil),
 		Streams: []grpc.StreamDesc{{
 			StreamName:    "Call",
+			Handler:       func(_ any, ss grpc.ServerStream) error { return h(ss) },
+			ServerStreams: true,
+			ClientStreams: true,
+		}, {
+			StreamName:    "Fill",
 			Handler:       func(_ any, ss grpc.ServerStream) error { return h(ss) },
 			ServerStreams: true,
 			ClientStreams: true,
@@ -201,7 +210,8 @@ type HCall struct {
 	ID   string
 	Conn net.Conn
 	Ctx  context.Context
-	Seq  int // entry order
+	Seq  int    // entry order
+	Tag  string // server tag (HandleTagged)
 
 	EnterAt     time.Time
 	Deadline    time.Time
@@ -222,9 +232,13 @@ type HCall struct {
 	SendErrs  []error
 	Busy      bool // executing a command (not parked on the command channel)
 
-	cmds   chan Cmd
-	closed bool
+	cmds         chan Cmd
+	closed       bool
+	finishQueued bool
 }
+
+// FinishQueued reports whether a CmdFinish has been queued for the handler.
+func (c *HCall) FinishQueued() bool { return c.finishQueued }
 
 // Handlers implements the Life service: every invocation registers an HCall
 // and then executes commands sent by the harness.
@@ -252,9 +266,17 @@ func (h *Handlers) Lock()   { h.mu.Lock() }
 func (h *Handlers) Unlock() { h.mu.Unlock() }
 
 // Handle is the stream handler.
-func (h *Handlers) Handle(ss grpc.ServerStream) error {
+func (h *Handlers) Handle(ss grpc.ServerStream) error { return h.handle("", ss) }
+
+// HandleTagged returns a stream handler that records tag in every HCall (to
+// tell several servers sharing one registry apart).
+func (h *Handlers) HandleTagged(tag string) func(grpc.ServerStream) error {
+	return func(ss grpc.ServerStream) error { return h.handle(tag, ss) }
+}
+
+func (h *Handlers) handle(tag string, ss grpc.ServerStream) error {
 	ctx := ss.Context()
-	c := &HCall{ID: IncomingID(ctx), Conn: transport.GetConnection(ctx), Ctx: ctx, cmds: make(chan Cmd, 256)}
+	c := &HCall{Tag: tag, ID: IncomingID(ctx), Conn: transport.GetConnection(ctx), Ctx: ctx, cmds: make(chan Cmd, 256)}
 	c.Deadline, c.HasDeadline = ctx.Deadline()
 	h.mu.Lock()
 	c.EnterAt = time.Now()
@@ -359,6 +381,9 @@ func (h *Handlers) Do(c *HCall, cmd Cmd) bool {
 	}
 	select {
 	case c.cmds <- cmd:
+		if cmd.Kind == CmdFinish {
+			c.finishQueued = true
+		}
 		return true
 	default:
 		return false
